@@ -295,6 +295,7 @@ type pendingTask struct {
 
 type cluster struct {
 	lastTN    tnConn
+	tearingDown bool // under holdMu
 	lastHeard map[uint64]heardRec
 	initNodes map[uint64]Node // the initial configuration (init action)
 	net     *simNet
@@ -740,6 +741,8 @@ func (c *cluster) teardown() {
 	c.releaseAllHolds()
 	c.net.healAll()
 	c.net.setGated(false)
+	c.holdMu.Lock()
+	c.tearingDown = true
 	for _, inc := range c.incs {
 		if inc.blocked != nil {
 			select {
@@ -749,6 +752,7 @@ func (c *cluster) teardown() {
 			}
 		}
 	}
+	c.holdMu.Unlock()
 	for _, id := range c.order {
 		n := c.nodes[id]
 		if n.status == nodeUp {
@@ -1023,7 +1027,15 @@ func (c *cluster) onHook(point, dir string) {
 		c.pushEvent(ev)
 	}
 	if doCrash {
+		// (under the lock teardown takes before it releases parked goroutines: a crash
+		// that fires while the case is being torn down must not park for ever)
+		c.holdMu.Lock()
+		if c.tearingDown {
+			c.holdMu.Unlock()
+			return
+		}
 		inc.blocked = make(chan struct{})
+		c.holdMu.Unlock()
 		c.killIncarnation(inc, arm.fin)
 		c.pushEvent(event{kind: "crashedAt", nid: inc.id, inc: inc.inc, s: point})
 		<-inc.blocked // parked: nothing after this point is visible to anyone
